@@ -297,3 +297,83 @@ def ob_distance_reward(ctx, n):
         res.status, res.detail = 'inconclusive', 'vacuous'
     res.time = time.time() - t0
     return res
+
+
+def ob_max_generation(ctx):
+    """C18/C07: MaxGeneration::is_termination <=> generation >= limit, and MaxGeneration::estimate is a number in [0,1]
+    (never NaN) for EVERY generation and limit, including limit = 0 and generation = 0."""
+    name = 'max_generation'
+    res = Result(name)
+    res.bounds = 'is_termination: generation, limit any integers in [0, 2^53]; estimate: the corner families limit==0, limit==1, generation==0, generation==limit (bit-precise IEEE division and min); the general quotient is not decided'
+    t0 = time.time()
+    est = ctx.prog.find_method('MaxGeneration', 'estimate', trait='Termination')
+    term = ctx.prog.find_method('MaxGeneration', 'is_termination', trait='Termination')
+    if len(est) != 1 or len(term) != 1:
+        raise Inconclusive('MaxGeneration::estimate/is_termination not found')
+
+    class Env(IeeeEnv):
+        def override(self, engine, st, callee, args, dest_ty):
+            if callee.endswith('HeuristicContext>::statistics'):
+                order = self.layout.fields('HeuristicStatistics')
+                fields = [Opaque(f) for f in order]
+                fields[order.index('generation')] = IV(getattr(self, 'generation_term', z3.Int('generation')))
+                return RefV(Cell(Agg('struct', fields, 'HeuristicStatistics')), 0)
+            return super().override(engine, st, callee, args, dest_ty)
+
+    # the general quotient g/limit of two symbolic doubles does not come back from the FP solver within the cap; the
+    # estimate is therefore decided on the corner families where it can go wrong (stated bound), is_termination in general
+    cases = [('estimate', est[0], 'limit == 0', lambda g, lim: [lim == 0]),
+             ('estimate', est[0], 'generation == 0', lambda g, lim: [g == 0]),
+             ('estimate', est[0], 'generation == limit', lambda g, lim: [g == lim]),
+             ('estimate', est[0], 'limit == 1', lambda g, lim: [lim == 1]),
+             ('is_termination', term[0], 'any', lambda g, lim: [])]
+    for which, fn, label, extra_fn in cases:
+        env = Env(ctx.prog, ctx.layout)
+        eng = symex.Engine(ctx.prog, ctx.layout, env, solver_timeout_ms=60000)
+
+        def body(st, env=env, eng=eng, fn=fn, extra_fn=extra_fn):
+            env.assumptions.clear()
+            g, lim = z3.Int('generation'), z3.Int('limit')
+            env.assumptions.extend([g >= 0, g <= 2 ** 53, lim >= 0, lim <= 2 ** 53] + extra_fn(g, lim))
+            # make the corner concrete for the executor so that the quotient has a constant operand
+            if label == 'limit == 0':
+                lim = z3.IntVal(0)
+            if label == 'limit == 1':
+                lim = z3.IntVal(1)
+            gen = z3.IntVal(0) if label == 'generation == 0' else (lim if label == 'generation == limit' else g)
+            env.generation_term = gen
+            order = ctx.layout.fields('MaxGeneration')
+            fields = [UnitV() for _ in order]
+            fields[order.index('limit')] = IV(lim)
+            me = Agg('struct', fields, 'MaxGeneration')
+            return eng.exec_fn(st, fn, [RefV(Cell(me), 0), RefV(Cell(Opaque('ctx')), 0, True)])
+
+        paths = eng.explore(body)
+        res.paths += len(paths)
+        res.functions |= eng.functions_used
+        for st, out in paths:
+            if out is None:
+                if not no_panic(ctx, res, env, st, what=name):
+                    break
+                continue
+            g, lim = z3.Int('generation'), z3.Int('limit')
+            if which == 'estimate':
+                r = out.t
+                claim = z3.And(z3.Not(z3.fpIsNaN(r)), z3.fpGEQ(r, z3.FPVal(0.0, F64)), z3.fpLEQ(r, z3.FPVal(1.0, F64)),
+                               z3.Implies(g >= lim, z3.fpEQ(r, z3.FPVal(1.0, F64))))
+            else:
+                claim = out.t == (g >= lim)
+            if not decide_claim(ctx, res, env, st, claim, what=f'{name}: {which} [{label}]'):
+                if res.model is not None:
+                    res.case = {'kind': 'max_generation', 'generation': res.model.eval(g, model_completion=True).as_long(),
+                                'limit': res.model.eval(lim, model_completion=True).as_long()}
+                break
+            if not no_panic(ctx, res, env, st, what=name):
+                break
+            res.witnesses += int(witness(ctx, res, env, st, z3.BoolVal(True)))
+        if res.status != 'holds':
+            break
+    if res.status == 'holds' and res.witnesses == 0:
+        res.status, res.detail = 'inconclusive', 'vacuous'
+    res.time = time.time() - t0
+    return res
